@@ -379,15 +379,23 @@ pub fn run_elf_load(args: &Args) -> Result<()> {
     std::fs::create_dir_all(&outdir)?;
     let thorough = tier == "thorough";
     let total = if thorough { 4000 } else { 480 };
+    // --only k1,k2,...: regenerate just these files (replay; the generator is a function of seed, tier and k)
+    let only: Option<std::sync::Arc<Vec<usize>>> = args.get("only").map(|s| std::sync::Arc::new(s.split(',').filter_map(|x| x.parse().ok()).collect()));
     let mut handles = Vec::new();
     for t in 0..threads {
         let outdir = outdir.clone();
+        let only = only.clone();
         handles.push(std::thread::spawn(move || -> Result<u64> {
             let mut m = Machine::new(Bg::Zero);
             let mut w = BufWriter::with_capacity(1 << 20, std::fs::File::create(format!("{}/elf_{:02}.ndjson", outdir, t))?);
             let path = format!("{}/gen_{:02}.elf", outdir, t);
             let mut n = 0u64;
             for k in (t..total).step_by(threads) {
+                if let Some(o) = &only {
+                    if !o.contains(&k) {
+                        continue;
+                    }
+                }
                 let mut rng = Rng::new(seed ^ hash_str("elf"), k as u64);
                 let big = thorough && k % 10 == 0;
                 let o = GenOpts {
